@@ -28,9 +28,10 @@ theorem valid_canon_inj {k : Kind} {a b : Val} (ha : validKind k a = true) (hb :
   all_goals (try (rename_i x y; cases x <;> cases y <;> simp_all))
 
 
-theorem validKind_fdict (k : Kind) (f c f' c' : Ov) (r : Nat) (h : Bool) :
-    validKind k (.fdict f c r h) = validKind k (.fdict f' c' r h) := by
-  cases k <;> rfl
+theorem validKind_fdict {k : Kind} {f c : Ov} {r : Nat} {h ki : Bool} (f' c' : Ov) (ki' : Bool)
+    (hv : validKind k (.fdict f c r h ki) = true) (hk : k = .frozenDict) :
+    validKind k (.fdict f' c' r h ki') = true := by
+  subst hk; rfl
 
 /-! ## keyword binding -/
 
@@ -93,7 +94,7 @@ theorem lookupKw_zip (l : List Opt) (f : String → Val) (n : String) :
 
 /-- the numeric tower, when enabled, has been merged into `hint_overrides` -/
 def TowerOK (a : Args) : Prop :=
-  a "is_pep484_tower" = .bool true → ∃ r h, a "hint_overrides" = .fdict .tower .tower r h
+  a "is_pep484_tower" = .bool true → ∃ r h, a "hint_overrides" = .fdict .tower .tower r h false
 
 /-- what `conf_kwargs` looks like when `__new__` reaches the memo lookup -/
 def Normal (t : Table) (a : Args) : Prop := validArgs t a = true ∧ TowerOK a
@@ -128,7 +129,20 @@ theorem findOpt_of_mem_names {t : Table} {n : String} (h : n ∈ t.opts.map (·.
 theorem Agree.at {t : Table} {a b : Args} (h : Agree t a b) {n : String} {o : Opt} (ho : findOpt t n = some o) :
     a n = b n := h n (findOpt_mem_names ho)
 
+theorem namesNodup_unique : ∀ (l : List Opt), namesNodup (l.map (·.name)) = true →
+    ∀ o ∈ l, ∀ o' ∈ l, o.name = o'.name → o = o'
+  | [], _, _, ho, _, _, _ => by simp at ho
+  | x :: r, h, o, ho, o', ho', hn => by
+    simp only [List.map_cons, namesNodup, Bool.and_eq_true, Bool.not_eq_true', List.contains_eq_mem,
+      decide_eq_false_iff_not, List.mem_map, not_exists, not_and] at h
+    rcases List.mem_cons.mp ho with e | e <;> rcases List.mem_cons.mp ho' with e' | e'
+    · rw [e, e']
+    · subst e; exact absurd hn.symm (h.1 o' e')
+    · subst e'; exact absurd hn (h.1 o e)
+    · exact namesNodup_unique r h.2 o e o' e' hn
+
 structure WF (t : Table) : Prop where
+  unique : ∀ o ∈ t.opts, ∀ o' ∈ t.opts, o.name = o'.name → o = o'
   alias_fresh : ∀ p ∈ t.aliases, p.1 ∉ t.opts.map (·.name)
   vt_not_fallback : t.fallbacks.lookup "violation_type" = none
   fallback_kind : ∀ p ∈ t.fallbacks, ∃ o, findOpt t p.1 = some o ∧ o.kind = .excType
@@ -141,8 +155,8 @@ structure WF (t : Table) : Prop where
 theorem wf_of {t : Table} (h : t.wf = true) : WF t := by
   simp only [Table.wf, Bool.and_eq_true, List.all_eq_true, Bool.not_eq_true', hasKind_iff,
     Option.isNone_iff_eq_none] at h
-  obtain ⟨⟨⟨⟨⟨⟨⟨⟨⟨⟨_, h2⟩, h3⟩, h4⟩, h5⟩, h6⟩, h7⟩, h8⟩, h9⟩, h10⟩, h11⟩ := h
-  refine ⟨?_, h3, ?_, h5, h6, h7, h8, ?_⟩
+  obtain ⟨⟨⟨⟨⟨⟨⟨⟨⟨⟨h1, h2⟩, h3⟩, h4⟩, h5⟩, h6⟩, h7⟩, h8⟩, h9⟩, h10⟩, h11⟩ := h
+  refine ⟨namesNodup_unique t.opts h1, ?_, h3, ?_, h5, h6, h7, h8, ?_⟩
   · intro p hp hm
     have := h2 p hp
     simp only [List.contains_eq_mem, decide_eq_false_iff_not] at this
@@ -179,7 +193,7 @@ theorem towerStep_normal {t : Table} (hwf : WF t) {a b : Args} (hv : validArgs t
   split at h
   · rename_i htow
     cases hho : a "hint_overrides" with
-    | fdict f c r hh =>
+    | fdict f c r hh ki =>
       simp only [hho] at h
       split at h
       · simp at h
@@ -192,8 +206,9 @@ theorem towerStep_normal {t : Table} (hwf : WF t) {a b : Args} (hv : validArgs t
           have := validArgs_at hv ho
           by_cases hn : o.name = "hint_overrides"
           · simp only [upd, hn, ↓reduceIte, Bool.and_eq_true]
+            have ho' : o = oo := hwf.unique o ho oo hoom (hn.trans hoon.symm)
             rw [hn, hho] at this
-            exact ⟨by rw [validKind_fdict _ .tower .tower f c]; exact this.1, this.2⟩
+            exact ⟨validKind_fdict .tower .tower false this.1 (by rw [ho', hook]), this.2⟩
           · simp only [upd, hn, ↓reduceIte, Bool.and_eq_true]
             exact this
         · intro _
